@@ -387,7 +387,13 @@ impl Storm {
                 self.move_price(w, b);
                 return;
             }
-            89..=93 => self.try_liquidate(w, m).await,
+            89..=93 => {
+                if self.r.gen_bool(0.35) {
+                    self.try_receivership(w, m).await
+                } else {
+                    self.try_liquidate(w, m).await
+                }
+            }
             94 => {
                 // anybody may refresh an account's health cache: the program's own three valuations
                 let i = ix::pulse_health(w.accts[a].key, w.risk_metas(a, None, None));
@@ -601,6 +607,70 @@ impl Storm {
         let dup = if self.r.gen_bool(0.1) { Some(if self.r.gen_bool(0.5) { ab } else { lb }) } else { None };
         let i = w.ix_liquidate_x(lq, le, ab, lb, auth.pubkey(), amt, dup);
         w.exec(m, &[i], &[&auth]).await
+    }
+
+    /// A receivership bracket by the liquidator's owner on some account (accepted only when that
+    /// account is unhealthy): withdraw a little collateral, repay a little debt, in one transaction
+    /// some time after the banks were last touched - so the withdraw and the repay inside the
+    /// bracket are the instructions that have to bring the banks' interest up to date.
+    pub async fn try_receivership(&mut self, w: &mut World, m: &mut Mon) -> crate::chain::TxOut {
+        let le = self.some_acct(w);
+        let ru = w.accts[self.liquidator].user;
+        let rk = w.user_kp(ru);
+        let tas = w.users[ru].tas.clone();
+        let acc = w.acct(le);
+        let mut assets = vec![];
+        let mut liabs = vec![];
+        for bal in acc.lending_account.balances.iter().filter(|b| b.active != 0) {
+            if let Some(bi) = w.bank_by_key(&bal.bank_pk) {
+                if w.banks[bi].venue.is_some() {
+                    continue;
+                }
+                if fx(&bal.asset_shares.value) >= one() {
+                    assets.push(bi);
+                }
+                if fx(&bal.liability_shares.value) >= one() {
+                    liabs.push(bi);
+                }
+            }
+        }
+        if assets.is_empty() || liabs.is_empty() || w.accts[le].user == ru {
+            m.r.count("storm.receivership_not_applicable");
+            let i = w.ix_accrue(self.some_bank(w));
+            return w.exec(m, &[i], &[]).await;
+        }
+        let (ab, lb) = (pick(&mut self.r, &assets), pick(&mut self.r, &liabs));
+        let (pa, _) = self.position(w, le, ab);
+        let (_, pl) = self.position(w, le, lb);
+        let wd = pick(&mut self.r, &[pa / 50 + 1, pa / 10 + 1, 1]);
+        let rp = pick(&mut self.r, &[pl / 5 + 1, pl / 2 + 1, pl / 40 + 1]);
+        let has_record = w.shadow.contains_key(&ix::liq_record_key(&w.accts[le].key));
+        let ixs = crate::scen::receivership_ixs(w, le, &rk, Some((ab, wd, false)), Some((lb, rp, false)), !has_record, &tas);
+        let mut o = w.exec(m, &ixs, &[&rk]).await;
+        if o.custom_code() == Some(crate::mon::err::HEALTHY_ACCOUNT) && self.r.gen_bool(0.6) {
+            // the account is healthy: its collateral loses value until it no longer is, the bracket
+            // is sent again, and the price comes back
+            let saved = crate::scen::save_price(w, ab);
+            let mut crashes = 0;
+            for _ in 0..5 {
+                crate::scen::scale_price_any(w, ab, 0.35).await;
+                crashes += 1;
+                let ixs = crate::scen::receivership_ixs(w, le, &rk, Some((ab, wd, false)), Some((lb, rp, false)), !has_record, &tas);
+                o = w.exec(m, &ixs, &[&rk]).await;
+                if o.custom_code() != Some(crate::mon::err::HEALTHY_ACCOUNT) {
+                    break;
+                }
+            }
+            match saved {
+                crate::scen::SavedPx::None => crate::scen::scale_price_any(w, ab, (1.0f64 / 0.35).powi(crashes)).await,
+                sp => crate::scen::restore_price(w, ab, sp),
+            }
+        }
+        m.r.count(if o.ok() { "storm.receivership_brackets_committed" } else { "storm.receivership_brackets_rejected" });
+        if !o.ok() {
+            m.r.count(&format!("storm.receivership_rejections/{}", o.custom_code().map(|c| c.to_string()).unwrap_or_else(|| "other".into())));
+        }
+        o
     }
 
     pub async fn try_bankruptcy(&mut self, w: &mut World, m: &mut Mon, a: usize) -> crate::chain::TxOut {
